@@ -37,6 +37,8 @@ fn virtual_cfg() -> Cfg {
     c.expr.radix = false;
     // the device may answer with 64-bit boundary values: never use one directly as a loop bound
     c.small_device = false;
+    // row values are whatever the expressions give (negative ones included)
+    c.fit = Fit::Free;
     c
 }
 
@@ -164,6 +166,18 @@ impl Property for C14 {
                         seen_malformed = true;
                         continue;
                     }
+                    // an error item that came with its driver call although the answer is well
+                    // formed and every declared expression can be evaluated over it (ite only
+                    // evaluates the branch it selects): nothing explains it
+                    if let Some(outs) = &answer {
+                        if eval_all(outs).iter().all(|(_, r)| r.is_ok()) {
+                            out.fail(
+                                "c14:error-instead-of-row",
+                                format!("item {i} is an error item, but every declared expression can be evaluated over the outputs the driver returned for this row ({outs:?})"),
+                            );
+                            return out;
+                        }
+                    }
                     // some other error (an expression of the program, most likely): what the
                     // program state is afterwards is not this property's business
                     break;
@@ -241,7 +255,14 @@ impl Property for C14 {
                         let want_expected = if !built.prog.header.contains(&name) {
                             Some(ExpVal::X)
                         } else {
-                            info.and_then(|inf| inf.literal_cols.iter().find(|(h, _)| *h == name).map(|(_, v)| *v))
+                            info.and_then(|inf| {
+                                inf.literal_cols
+                                    .iter()
+                                    .find(|(h, _)| *h == name)
+                                    .map(|(_, v)| *v)
+                                    // (a virtual signal is 64 bits wide: a constant expression keeps its value)
+                                    .or_else(|| inf.constant_cols.iter().find(|(h, _)| *h == name).map(|(_, v)| ExpVal::Val(*v)))
+                            })
                         };
                         if let Some(we) = want_expected {
                             out.class("literal-expected-checked");
